@@ -906,7 +906,6 @@ def generate(desc=None):
     attr_id = {a: k for k, a in enumerate(d["attrs"])}
     o = ["(* generated by gen/gates.py from %s -- do not edit *)" % FILE,
          "From Qib Require Import Gates.ElemModel.",
-         "Local Open Scope K_scope.",
          "(* particle attributes: %s *)" % ", ".join("%d = self.%s" % (k, a) for a, k in attr_id.items()), ""]
     order = [nm for nm in ELEMENTARY + TARGET_ONLY]
     for nm in order:
@@ -923,14 +922,14 @@ def generate(desc=None):
         avars = " ".join("a%d" % i for i in range(na))
         abind = " (%s : K)" % avars if na else ""
         o.append("Definition %s_atoms : list aspec := %s." % (nm, coq_list([coq_aspec(a) for a in c["atoms"]])))
-        alist = " ".join("(nth %d a 0)" % i for i in range(na))
+        alist = " ".join("(nth %d a s0)" % i for i in range(na))
         if c["mat"] is not None:
             rows = ";\n   ".join(coq_list(r) for r in c["mat"])
-            o.append("Definition %s_mat {K : Scalar}%s : list (list K) :=\n  [%s]." % (nm, abind, rows))
+            o.append("Definition %s_mat {K : Scalar}%s : list (list K) :=\n  ([%s])%%K." % (nm, abind, rows))
             o.append("Definition %s_dim (n : nat) : nat := %d." % (nm, len(c["mat"])))
             if c["guard"]:
                 rows0 = ";\n   ".join(coq_list(r) for r in c["guard"]["mat"])
-                o.append("Definition %s_mat0 {K : Scalar}%s : list (list K) :=\n  [%s]." % (nm, abind, rows0))
+                o.append("Definition %s_mat0 {K : Scalar}%s : list (list K) :=\n  ([%s])%%K." % (nm, abind, rows0))
                 o.append("Definition %s_guard : option nat := Some %d." % (nm, c["guard"]["atom"]))
                 o.append("Definition %s_bmx {K : Scalar} (g : bool) (n : nat) (a : list K) : BMx K :=\n"
                          "  if g then mxl (%s_mat0 %s) else mxl (%s_mat %s)." % (nm, nm, alist, nm, alist))
@@ -939,7 +938,7 @@ def generate(desc=None):
                 o.append("Definition %s_bmx {K : Scalar} (g : bool) (n : nat) (a : list K) : BMx K :=\n"
                          "  mxl (%s_mat %s)." % (nm, nm, alist))
         else:
-            o.append("Definition %s_scalar {K : Scalar}%s : K := %s." % (nm, abind, c["sym"]["scalar"]))
+            o.append("Definition %s_scalar {K : Scalar}%s : K := (%s)%%K." % (nm, abind, c["sym"]["scalar"]))
             o.append("Definition %s_dim (n : nat) : nat := 2 ^ n." % nm)
             o.append("Definition %s_guard : option nat := None." % nm)
             o.append("Definition %s_bmx {K : Scalar} (g : bool) (n : nat) (a : list K) : BMx K :=\n"
